@@ -115,13 +115,14 @@ Qed.
 Definition task_waker_only (w : option waker) : Prop := w = None \/ w = Some WTask.
 
 Definition ready_done (s : state) : Prop := s.(ready).(o_sent) = true \/ s.(ready).(o_rxdrop) = true.
+Definition parked_other (s : state) : Prop := s.(parked) = true -> is_other s.(cur) = true.
 Definition cells_at (ph : nat) (s : state) : Prop :=
   match ph with
-  | 0 | 1 => s.(ready).(o_sent) = false /\ s.(sf).(sf_res) = SfNone /\ s.(parked) = false
+  | 0 | 1 => s.(ready).(o_sent) = false /\ s.(sf).(sf_res) = SfNone /\ parked_other s
   | 2 => ready_done s /\ s.(sf).(sf_res) = SfNone /\
          (s.(parked) = true -> fin_done s = false /\ (s.(fin).(o_waker) = Some WQueue \/ s.(fin).(o_waker) = Some WBoth))
   | 3 => ready_done s /\ s.(sf).(sf_res) = SfNone /\ s.(parked) = false /\ fin_done s = true
-  | _ => ready_done s /\ (s.(sf).(sf_res) = SfOk \/ s.(sf).(sf_res) = SfReturned) /\ s.(parked) = false /\ fin_done s = true
+  | _ => ready_done s /\ (s.(sf).(sf_res) = SfOk \/ s.(sf).(sf_res) = SfReturned) /\ parked_other s /\ fin_done s = true
   end.
 
 Record cells_ok (s : state) : Prop := {
@@ -132,39 +133,41 @@ Record cells_ok (s : state) : Prop := {
   c_w_sf : task_waker_only s.(sf).(sf_waker);
   c_w_ev : forall e c w, s.(evs) !! e = Some c -> w ∈ c.(regs) -> w = WTask;
   c_tx : s.(txheld) = negb (fin_done s);
+  c_owk : s.(parked) = true -> is_other s.(cur) = true -> s.(owk) <> None;
 }.
 
 Lemma cells_at_view ph s s' :
   s'.(ready).(o_sent) = s.(ready).(o_sent) ->
   (s.(ready).(o_rxdrop) = true -> s'.(ready).(o_rxdrop) = true) ->
   fin_done s' = fin_done s -> s'.(fin).(o_waker) = s.(fin).(o_waker) ->
-  s'.(sf).(sf_res) = s.(sf).(sf_res) -> s'.(parked) = s.(parked) ->
+  s'.(sf).(sf_res) = s.(sf).(sf_res) -> s'.(parked) = s.(parked) -> s'.(cur) = s.(cur) ->
   cells_at ph s -> cells_at ph s'.
 Proof.
-  intros E1 E2 E3 E4 E5 E6. unfold cells_at, ready_done.
-  destruct ph as [|[|[|[|?]]]]; rewrite ?E1, ?E3, ?E4, ?E5, ?E6; naive_solver.
+  intros E1 E2 E3 E4 E5 E6 E7. unfold cells_at, ready_done, parked_other.
+  destruct ph as [|[|[|[|?]]]]; rewrite ?E1, ?E3, ?E4, ?E5, ?E6, ?E7; naive_solver.
 Qed.
 
 (* consequences in implication form *)
 Lemma cells_unsent s : cells_ok s -> phase s <= 1 -> s.(ready).(o_sent) = false.
-Proof. intros [H _ _ _ _ _ _]. destruct (phase s) as [|[|?]]; cbn in H; [naive_solver|naive_solver|lia]. Qed.
+Proof. intros [H _ _ _ _ _ _ _]. destruct (phase s) as [|[|?]]; cbn in H; [naive_solver|naive_solver|lia]. Qed.
 Lemma cells_ready_done s : cells_ok s -> 2 <= phase s -> ready_done s.
-Proof. intros [H _ _ _ _ _ _]. destruct (phase s) as [|[|[|[|?]]]]; cbn in H; try lia; naive_solver. Qed.
+Proof. intros [H _ _ _ _ _ _ _]. destruct (phase s) as [|[|[|[|?]]]]; cbn in H; try lia; naive_solver. Qed.
 Lemma cells_fin_done s : cells_ok s -> 3 <= phase s -> fin_done s = true.
-Proof. intros [H _ _ _ _ _ _]. destruct (phase s) as [|[|[|[|?]]]]; cbn in H; try lia; naive_solver. Qed.
+Proof. intros [H _ _ _ _ _ _ _]. destruct (phase s) as [|[|[|[|?]]]]; cbn in H; try lia; naive_solver. Qed.
 Lemma cells_sf_none s : cells_ok s -> phase s <= 3 -> s.(sf).(sf_res) = SfNone.
-Proof. intros [H _ _ _ _ _ _]. destruct (phase s) as [|[|[|[|?]]]]; cbn in H; try lia; naive_solver. Qed.
+Proof. intros [H _ _ _ _ _ _ _]. destruct (phase s) as [|[|[|[|?]]]]; cbn in H; try lia; naive_solver. Qed.
 Lemma cells_sf_some s : cells_ok s -> 4 <= phase s -> s.(sf).(sf_res) = SfOk \/ s.(sf).(sf_res) = SfReturned.
-Proof. intros [H _ _ _ _ _ _]. destruct (phase s) as [|[|[|[|?]]]]; cbn in H; try lia; naive_solver. Qed.
+Proof. intros [H _ _ _ _ _ _ _]. destruct (phase s) as [|[|[|[|?]]]]; cbn in H; try lia; naive_solver. Qed.
 Lemma cells_parked s : cells_ok s -> s.(parked) = true ->
-  phase s = 2 /\ fin_done s = false /\ (s.(fin).(o_waker) = Some WQueue \/ s.(fin).(o_waker) = Some WBoth).
+  is_other s.(cur) = true \/
+  (phase s = 2 /\ fin_done s = false /\ (s.(fin).(o_waker) = Some WQueue \/ s.(fin).(o_waker) = Some WBoth)).
 Proof.
-  intros [H _ _ _ _ _ _] Hp. destruct (phase s) as [|[|[|[|?]]]]; cbn in H.
-  - destruct H as (_ & _ & H); congruence.
-  - destruct H as (_ & _ & H); congruence.
-  - destruct H as (_ & _ & H). split; [done|by apply H].
+  intros [H _ _ _ _ _ _ _] Hp. destruct (phase s) as [|[|[|[|?]]]]; cbn in H.
+  - destruct H as (_ & _ & H). left. by apply H.
+  - destruct H as (_ & _ & H). left. by apply H.
+  - destruct H as (_ & _ & H). right. split; [done|by apply H].
   - destruct H as (_ & _ & H & _); congruence.
-  - destruct H as (_ & _ & H & _); congruence.
+  - destruct H as (_ & _ & H & _). left. by apply H.
 Qed.
 Lemma phase_le4 s : phase s <= 4.
 Proof. unfold phase, phase_of. destruct (existsb _ _); [lia|]. destruct (cur s) as [| |[]]; lia. Qed.
@@ -188,8 +191,10 @@ Definition pc_ok (F : sfacts) (s : state) : Prop :=
   | PIdle | PLoop => s.(sst) <> SCompleted
   | PDrainLoop => sf_state s.(sst) = true
   | PDrainJob => sf_state s.(sst) = true /\ phase s <= 3
-  | PDrainPend | PDrainWaker => sf_state s.(sst) = true /\ s.(cur) = CSlot QS2 /\ s.(parked) = true
-  | PReadyPoll => s.(sst) = SWaitQueue /\ (s.(pool) = false -> 2 <= phase s)
+  | PDrainPend | PDrainWaker => sf_state s.(sst) = true /\ s.(parked) = true /\ phase s <= 3 /\
+                                (s.(cur) = CSlot QS2 \/ (is_other s.(cur) = true /\ s.(owk) = Some WBoth))
+  | PReadyPoll => s.(sst) = SWaitQueue /\
+                  (s.(pool) = false -> 2 <= phase s \/ s.(pollable) = true \/ (s.(parked) = true /\ is_other s.(cur) = true /\ s.(owk) = Some WBoth))
   | PCreate => s.(sst) = SWaitQueue /\ s.(ready).(o_sent) = true
   | PUser | PFinSend => s.(sst) = SWaitFuture
   | PErrSend | PErrDropRx | PPanic => False
@@ -216,7 +221,8 @@ Definition ulog_ok (s : state) : Prop :=
 Definition wait_ok (s : state) : Prop :=
   s.(pc) = PIdle -> s.(pollable) = true \/
      match s.(sst) with
-     | SWaitQueue => s.(ready).(o_waker) = Some WTask /\ s.(pool) = true /\ s.(ready).(o_sent) = false
+     | SWaitQueue => s.(ready).(o_waker) = Some WTask /\ s.(ready).(o_sent) = false /\
+                     (s.(pool) = true \/ (s.(parked) = true /\ is_other s.(cur) = true /\ s.(owk) = Some WBoth))
      | SWaitFuture => exists e r, s.(uscr) = UAwait e :: r /\
                         (s.(evs) !! e = None \/
                          exists c, s.(evs) !! e = Some c /\ c.(fired) = false /\ WTask ∈ c.(regs))
